@@ -236,23 +236,44 @@ def run_tlc(module, cfg_text, workers=1, simulate=None, depth=None, seed=None, e
 
 
 def parse_prints(out):
-    """PrintT(<<"TAG", jsonString>>) lines -> list of (tag, obj). The JSON is emitted with ToJson
-    so the TLA+ string literal contains escaped quotes."""
+    """PrintT(<<"TAG", ...>>) output -> list of (tag, payload).  TLC pretty-prints long values over
+    several lines, so a value is collected by bracket matching and re-joined with single spaces.
+    A payload that is one TLA+ string holding JSON (ToJson) is decoded."""
     res = []
+    buf, depth = None, 0
     for line in out.splitlines():
-        if not line.startswith('<<"'):
-            continue
-        m = re.match(r'^<<"(\w+)", "(.*)">>$', line)
-        if not m:
-            m3 = re.match(r'^<<"(\w+)", (.*)>>$', line)
-            if m3:
-                res.append((m3.group(1), m3.group(2)))
-            continue
-        s = m.group(2).replace('\\"', '"').replace("\\\\", "\\")
-        try:
-            res.append((m.group(1), json.loads(s)))
-        except Exception:
-            res.append((m.group(1), s))
+        if buf is None:
+            if not (line.startswith('<<"') or line.startswith('<< "')):
+                continue
+            buf, depth = [], 0
+        buf.append(line.strip())
+        instr = False
+        prev = ""
+        for ch in line:
+            if ch == '"' and prev != "\\":
+                instr = not instr
+            elif not instr:
+                if ch in "<[{(":
+                    depth += 1
+                elif ch in ">]})":
+                    depth -= 1
+            prev = ch
+        if depth <= 0:
+            text = " ".join(buf)
+            buf = None
+            m = re.match(r'^<<\s*"(\w+)",\s*(.*?)\s*>>$', text)
+            if not m:
+                continue
+            tag, payload = m.group(1), m.group(2)
+            ms = re.match(r'^"(.*)"$', payload)
+            if ms and not re.search(r'(?<!\\)",', payload):
+                body = ms.group(1).replace('\\"', '"').replace("\\\\", "\\")
+                try:
+                    res.append((tag, json.loads(body)))
+                    continue
+                except Exception:
+                    pass
+            res.append((tag, payload))
     return res
 
 
